@@ -265,3 +265,50 @@ MUTANTS += [
     {"id": "C09-shared-layout-helper-negates-wraps", "prop": "C09", "expect": "SHARED-LAYOUT",
      "edits": _shared("cells_extent(ctx, self.chars().map(|c| Cell::new_char(face, c)), ct.max.width, true)", "cells_extent(ctx, &self.cells, ct.max.width, self.wraps)", inner="!wraps")},
 ]
+
+# io::Write adapter written as a lazy iterator chain (decode in from_fn, put_char in map / in the consumer's closure)
+_U8_LOOP = "        while let Some(ch) = self.decoder.decode(&mut cur)? {\n            if !self.parent.put_char(ch) {\n                return Ok(buf.len());\n            }\n        }\n        Ok(cur.position() as usize)"
+_U8_SPLIT = "        let (decoder, parent) = (&mut self.decoder, &mut self.parent);\n"
+
+
+def _u8_chain(pred="!matches!(accepted, Ok(true))", inner="parent.put_char(ch)", ret="stopped.map_or_else(|| cur.position() as usize, |_| buf.len())", split=_U8_SPLIT, extra=""):
+    return [(R_, _U8_LOOP, split + "        let stopped = std::iter::from_fn(|| decoder.decode(&mut cur).transpose())\n" + extra
+             + "            .map(|ch| ch.map(|ch| " + inner + "))\n            .find(|accepted| " + pred + ")\n            .transpose()?;\n        Ok(" + ret + ")")]
+
+
+MUTANTS += [
+    {"id": "C09-benign-write-chain-find", "prop": "C09", "benign": True, "edits": _u8_chain()},
+    {"id": "C09-benign-write-chain-find-is-some", "prop": "C09", "benign": True,
+     "edits": _u8_chain(pred="match accepted {\n                Ok(done) => !*done,\n                Err(_) => true,\n            }", ret="if stopped.is_some() { buf.len() } else { cur.position() as usize }")},
+    {"id": "C09-benign-write-chain-try-for-each", "prop": "C09", "benign": True,
+     "edits": [(R_, _U8_LOOP, _U8_SPLIT + "        let full = std::iter::from_fn(|| decoder.decode(&mut cur).transpose())\n            .map(|ch| ch.map(|ch| parent.put_char(ch)))\n            .try_for_each(|r| match r {\n                Ok(true) => Ok(()),\n                Ok(false) => Err(None),\n                Err(e) => Err(Some(e)),\n            });\n        match full {\n            Ok(()) => Ok(cur.position() as usize),\n            Err(None) => Ok(buf.len()),\n            Err(Some(e)) => Err(e),\n        }")]},
+    {"id": "C09-benign-write-chain-find-map", "prop": "C09", "benign": True,
+     "edits": [(R_, _U8_LOOP, _U8_SPLIT + "        let stopped = std::iter::from_fn(|| decoder.decode(&mut cur).transpose())\n            .find_map(|r| match r.map(|ch| parent.put_char(ch)) {\n                Ok(true) => None,\n                Ok(false) => Some(Ok(())),\n                Err(e) => Some(Err(e)),\n            })\n            .transpose()?;\n        Ok(stopped.map_or_else(|| cur.position() as usize, |_| buf.len()))")]},
+    {"id": "C09-write-chain-stops-on-accepted", "prop": "C09", "expect": "WRITER-FOLD", "edits": _u8_chain(pred="!matches!(accepted, Ok(false))")},
+    {"id": "C09-write-chain-results-swapped", "prop": "C09", "expect": "WRITER-FOLD", "edits": _u8_chain(ret="stopped.map_or_else(|| buf.len(), |_| cur.position() as usize)")},
+    {"id": "C09-write-chain-not-forwarded", "prop": "C09", "expect": "WRITER-FOLD", "edits": _u8_chain(inner="ch != '\\0'", split="        let decoder = &mut self.decoder;\n")},
+    {"id": "C09-write-chain-fresh-decoder", "prop": "C09", "expect": "WRITER-FOLD",
+     "edits": _u8_chain(split="        let mut fresh = std::mem::take(&mut self.decoder);\n        let (decoder, parent) = (&mut fresh, &mut self.parent);\n")},
+    {"id": "C09-write-chain-filter-drops-items", "prop": "C09", "expect": "WRITER-FOLD", "edits": _u8_chain(extra="            .filter(|r| !matches!(r, Ok(' ')))\n")},
+    {"id": "C09-write-chain-find-map-len-on-accept", "prop": "C09", "expect": "WRITER-FOLD",
+     "edits": [(R_, _U8_LOOP, _U8_SPLIT + "        let stopped = std::iter::from_fn(|| decoder.decode(&mut cur).transpose())\n            .find_map(|r| match r.map(|ch| parent.put_char(ch)) {\n                Ok(false) => None,\n                Ok(true) => Some(Ok(())),\n                Err(e) => Some(Err(e)),\n            })\n            .transpose()?;\n        Ok(stopped.map_or_else(|| cur.position() as usize, |_| buf.len()))")]},
+]
+
+_U8_HEAD = "        let mut cur = std::io::Cursor::new(buf);\n        let (decoder, parent)"
+MUTANTS += [
+    {"id": "C09-benign-write-chain-empty-fast-path", "prop": "C09", "benign": True,
+     "edits": _u8_chain() + [(R_, _U8_HEAD, "        if buf.is_empty() {\n            return Ok(0);\n        }\n        let mut cur = std::io::Cursor::new(buf);\n        let (decoder, parent)")]},
+    {"id": "C09-benign-write-chain-empty-fast-path-len", "prop": "C09", "benign": True,
+     "edits": _u8_chain() + [(R_, _U8_HEAD, "        if !(buf.len() > 0) {\n            return Ok(buf.len());\n        }\n        let mut cur = std::io::Cursor::new(buf);\n        let (decoder, parent)")]},
+    {"id": "C09-write-chain-fast-path-on-nonempty", "prop": "C09", "expect": "WRITER-FOLD",
+     "edits": _u8_chain() + [(R_, _U8_HEAD, "        if !buf.is_empty() {\n            return Ok(0);\n        }\n        let mut cur = std::io::Cursor::new(buf);\n        let (decoder, parent)")]},
+    {"id": "C09-write-chain-fast-path-short-buffer", "prop": "C09", "expect": "WRITER-FOLD",
+     "edits": _u8_chain() + [(R_, _U8_HEAD, "        if buf.len() < 2 {\n            return Ok(buf.len());\n        }\n        let mut cur = std::io::Cursor::new(buf);\n        let (decoder, parent)")]},
+]
+
+MUTANTS += [
+    # the chain lives in a private single-caller helper
+    {"id": "C09-benign-write-chain-in-helper", "prop": "C09", "benign": True,
+     "edits": [(R_, _U8_LOOP, "        let stopped = Self::first_stop(&mut self.decoder, &mut self.parent, &mut cur)?;\n        Ok(stopped.map_or_else(|| cur.position() as usize, |_| buf.len()))"),
+               (R_, "impl<W> std::io::Write for Utf8CellWriter<W>\nwhere\n    W: CellWrite,\n{", "impl<W: CellWrite> Utf8CellWriter<W> {\n    fn first_stop(decoder: &mut Utf8Decoder, parent: &mut W, cur: &mut std::io::Cursor<&[u8]>) -> std::io::Result<Option<bool>> {\n        std::iter::from_fn(|| decoder.decode(&mut *cur).transpose())\n            .map(|ch| ch.map(|ch| parent.put_char(ch)))\n            .find(|accepted| !matches!(accepted, Ok(true)))\n            .transpose()\n    }\n}\n\nimpl<W> std::io::Write for Utf8CellWriter<W>\nwhere\n    W: CellWrite,\n{")]},
+]
